@@ -273,7 +273,7 @@ class UnView(Operation):
         # dℒ/d(base) = [0., 0., g2]
         # dℒ/d(view) = [g0, g1]
         if index == 0:  # compute dℒ/d(base)
-            grad = grad.copy()
+            grad = grad.copy(order="K")  # keep the layout: the view-fns must produce views
             grad_view = grad
             for fn in self._view_fn_seq:
                 grad_view = fn(grad_view)
